@@ -224,20 +224,19 @@ Proof.
   destruct (Rle_dec 0 ux) as [X|X].
   - (* (1 - ux) / uy <= 1 ... or the other one *)
     eapply Rle_trans; [|apply Rmax_l]. unfold Rdiv.
-    assert (A : (1 + - ux) * / uy <= 1 \/ (1 - - ux) * / uy <= 1).
-    { left. replace 1 with (uy * / uy) at 2 by exact E. replace (1 + - ux) with (1 - ux) by ring.
+    assert (A : (1 + - ux) * / uy <= 1).
+    { replace 1 with (uy * / uy) at 2 by exact E. replace (1 + - ux) with (1 - ux) by ring.
       apply Rmult_le_compat_r; [lra|].
-      assert (P : (1 - ux) * (1 + ux) = uy * uy) by (rewrite <- U1; ring).
+      assert (P : (1 - ux) * (1 + ux) = uy * uy) by (replace (uy * uy) with (1 - ux * ux) by lra; ring).
       destruct (Rle_dec (1 - ux) uy); [assumption | exfalso].
       assert (uy * (1 + ux) < (1 - ux) * (1 + ux)) by (apply Rmult_lt_compat_r; lra).
       assert (uy * (1 + ux) < uy * uy) by lra.
       assert (1 + ux < uy) by (apply Rmult_lt_reg_l with uy; lra). lra. }
-    destruct A as [A|A]; [|lra].
     assert (round * ((1 + - ux) * / uy) <= round * 1) by (apply Rmult_le_compat_l; lra). lra.
   - eapply Rle_trans; [|apply Rmax_r]. unfold Rdiv.
     assert (A : (1 - - ux) * / uy <= 1).
     { replace 1 with (uy * / uy) at 2 by exact E. replace (1 - - ux) with (1 + ux) by ring. apply Rmult_le_compat_r; [lra|].
-      assert (P : (1 - ux) * (1 + ux) = uy * uy) by (rewrite <- U1; ring).
+      assert (P : (1 - ux) * (1 + ux) = uy * uy) by (replace (uy * uy) with (1 - ux * ux) by lra; ring).
       destruct (Rle_dec (1 + ux) uy); [assumption | exfalso].
       assert (uy * (1 - ux) < (1 + ux) * (1 - ux)) by (apply Rmult_lt_compat_r; lra).
       assert (uy * (1 - ux) < uy * uy) by lra.
